@@ -234,7 +234,17 @@ func groupObls(obls []*Obligation) []*OblGroup {
 	}
 	var out []*OblGroup
 	for _, n := range order {
-		out = append(out, m[n])
+		g := m[n]
+		// vacuity guard with "any" semantics: at least one return path must not be refutable
+		if strings.HasSuffix(g.Name, "#cover:some-return-path-reachable") {
+			g.OK = false
+			for _, o := range g.Obls {
+				if o.OK() {
+					g.OK = true
+				}
+			}
+		}
+		out = append(out, g)
 	}
 	return out
 }
